@@ -307,6 +307,8 @@ def wl_shift(ctx, idx, rng):
         x[-1] += 7
     sig, desc = gen.make_signal(rng, clsname, N, data=x, rate=rate, dask=use_dask, mem="readonly" if gen._side_rng(rng).random() < 0.1 else "rand")
     s = make_shift(rng, N, sshape, kind if whole is None else "int", shape_kind)
+    if np.ndim(s) >= 2 and rng.random() < 0.35:
+        s = np.asfortranarray(s)            # a delay table passed transposed: same values, column-major memory
     sq = s
     if whole is not None:
         T = np.round(np.asarray(s, dtype=float) / R) if abs(np.max(np.abs(s))) >= R else np.sign(s)
